@@ -233,8 +233,10 @@ func (s *Scope) Set(sym Symbol, value Object) {
 	}
 	if pkg, name, private := UnpackName(string(sym)); pkg != nil {
 		// A :: reference reaches any variable of the package and makes a
-		// new one if there is none yet, a : reference an exported one only.
-		if vv := pkg.GetVarVal(name); private || (vv != nil && vv.Export) {
+		// new one if there is none yet, a : reference one the package
+		// itself exports only, as with reading pkg:name.
+		if vv := pkg.GetVarVal(name); private || (vv != nil && vv.Export &&
+			(vv.Pkg == pkg || vv.Pkg == nil || pkg.Imports[strings.ToLower(name)] != nil)) {
 			pkg.Set(name, value, private)
 		}
 		return
